@@ -15,6 +15,12 @@ from ..lockernel import run
 from .c05 import _report
 from .c13 import _refines
 
+def _stable(x):
+    # process-independent selector (the builtin hash of strings changes from run to run)
+    import zlib
+    return zlib.crc32(repr(x).encode())
+
+
 EXPLANATION = (
     "RK: extract_feature_name_id is interpreted for every subset of up to three recognised keys in every order, three "
     "case spellings, with look-alike keys interleaved, and compared with the documented priority list; "
@@ -77,7 +83,7 @@ def rk_name_id(ctx):
     for r_ in (1, 2, 3):
         for keys in itertools.combinations(allk, r_):
             for mode in (0, 1, 2):
-                if r_ == 3 and mode and not ctx.thorough and hash(keys) % 3:
+                if r_ == 3 and mode and not ctx.thorough and _stable(keys) % 3:
                     continue
                 specs.append((keys, mode))
     ctx.r.floor("C18.RK", "key subsets x spellings", len(specs), 150)
